@@ -239,10 +239,13 @@ def run_group(group, repo='/repo', outdir=None, seed=0, rlimit=None, extra_args=
         # changed code; drop exactly that aid and verify again (the contract clauses stay)
         progressed = False
         for u in res['undecided']:
-            if not (u.get('unit') and u.get('code') and u.get('src') is None and u.get('woven_line')):
+            if not (u.get('unit') and u.get('code') and u.get('woven_line')):
                 continue
             unit = next((x for x in res['map']['units'] if x['unit'] == u['unit']), None)
             for aid, l0, l1 in (unit or {}).get('aids', []):
+                # on a woven line: any aid; on a source line: only a closure contract whose closure contains that line
+                if u.get('src') is not None and not aid.startswith('closure:'):
+                    continue
                 if l0 <= u['woven_line'] <= l1 and aid not in drop.get(u['unit'], set()):
                     drop.setdefault(u['unit'], set()).add(aid)
                     progressed = True
